@@ -100,6 +100,25 @@ def run_task(task):
         return v
 
     conc_mod.GammaPriorConcentrationSampler.sample = spy_sample
+    import phyclone.smc.kernels.base as kbase
+    real_create = kbase.Kernel.create_particle
+    density_fail = []
+    density_checks = [0]
+
+    def create_spy(self, log_q, parent_particle, tree):
+        p = real_create(self, log_q, parent_particle, tree)
+        if task.get("density_monitor") and density_checks[0] < 400:
+            density_checks[0] += 1
+            t = p.tree
+            lp = float(self.tree_dist.log_p(t))
+            lp1 = float(self.tree_dist.log_p_one(t))
+            if abs(lp - float(p.log_p)) > 1e-8 * (1 + abs(lp)) or abs(lp1 - float(p.log_p_one)) > 1e-8 * (1 + abs(lp1)):
+                if len(density_fail) < 3:
+                    density_fail.append({"stored": [float(p.log_p), float(p.log_p_one)], "recomputed": [lp, lp1],
+                                         "alpha_now": float(self.tree_dist.prior.alpha)})
+        return p
+
+    kbase.Kernel.create_particle = create_spy
     try:
         for c in range(task["count"]):
             idx = task["offset"] + c
@@ -122,6 +141,8 @@ def run_task(task):
             sampler_mon.DATA_BY_IDX.clear()
             sampler_mon.CHECK_REBUILD[0] = False
             gamma_log = []
+            del density_fail[:]
+            density_checks[0] = 0
             conc_mod.gamma = GammaProxy(real_gamma, cfg["inject"], gamma_log)
             captured = {}
             conc_calls = []
@@ -229,6 +250,10 @@ def run_task(task):
                     part.violation("C15|first trace entry is not the state after burn-in", dict(case))
                 part.count("first_entry_checked")
             # ------------------------------------------------------------------ C13 call site
+            part.count("particle_densities_recomputed", density_checks[0])
+            for df in density_fail:
+                part.violation("C13|a density evaluated after the concentration update does not use the current "
+                               "concentration value (stale value stored in a particle)", dict(case, **df))
             for ci, cc in enumerate(conc_calls):
                 part.count("concentration_updates_observed")
                 if cc["seen"] is None:
@@ -259,6 +284,7 @@ def run_task(task):
                 part.count(k, v)
     finally:
         conc_mod.GammaPriorConcentrationSampler.sample = real_sample
+        kbase.Kernel.create_particle = real_create
         shutil.rmtree(tmpdir, ignore_errors=True)
     return None, part
 
@@ -269,7 +295,8 @@ def run_configs(ctx, n_runs, focus, chains=False, tree_invariant=False):
     shards = 16
     per = max(1, n_runs // shards)
     sub = type(ctx)(ctx.prop_id, ctx.tier, ctx.seed)
-    tasks = [{"seed": ctx.seed, "offset": i * per, "count": per, "tree_invariant": tree_invariant} for i in range(shards)]
+    tasks = [{"seed": ctx.seed, "offset": i * per, "count": per, "tree_invariant": tree_invariant,
+              "density_monitor": focus == "conc"} for i in range(shards)]
     sub.map("checks.c19", "run_task", tasks, timeout=3000)
     for v in sub.violations:
         tag, _, what = v["what"].partition("|")
